@@ -603,13 +603,15 @@ class SCplx:
 _SYM_CACHE = {}
 
 
-def term_syms(t):
-    """Names of the uninterpreted constants/functions occurring in a z3 term."""
+def term_syms(t, want_pure=False):
+    """Names of the uninterpreted constants/functions occurring in a z3 term (and, with want_pure, whether the
+    term is pure nonlinear real arithmetic: no Int-sorted subterm, no uninterpreted function application)."""
     key = t.get_id()
     hit = _SYM_CACHE.get(key)
     if hit is not None and hit[0].eq(t):     # ids are only unique among live terms: keep the term alive
-        return hit[1]
+        return (hit[1], hit[2]) if want_pure else hit[1]
     out = set()
+    pure = True
     seen = set()
     stack = [t]
     while stack:
@@ -622,12 +624,15 @@ def term_syms(t):
             d = x.decl()
             if d.kind() == z3.Z3_OP_UNINTERPRETED:
                 out.add(d.name())
+                if d.arity() > 0:
+                    pure = False
+            if pure and z3.is_int(x):
+                pure = False
             stack.extend(x.children())
         elif z3.is_quantifier(x):
+            pure = False
             stack.append(x.body())
     if len(_SYM_CACHE) > 100000:
         _SYM_CACHE.clear()
-    _SYM_CACHE[key] = (t, out)
-    return out
-
-
+    _SYM_CACHE[key] = (t, out, pure)
+    return (out, pure) if want_pure else out
